@@ -134,6 +134,8 @@ type MXPlan struct {
 	Quit421 bool
 	// Perm552: permanent rejections are sent as 552 5.2.2.
 	Perm552 bool
+	// IdleClose > 0: the server hangs up after this much idle time.
+	IdleClose time.Duration
 }
 
 // MXTx is one message the server received content for.
@@ -264,9 +266,20 @@ func (m *ScriptedMX) handle(raw net.Conn, id int) {
 	var rcpts, rcptsAll []string
 	connTx := 0
 	for {
-		conn.SetReadDeadline(time.Now().Add(20 * time.Minute))
+		idle := 20 * time.Minute
+		if m.Plan.IdleClose > 0 {
+			// a server with a short idle time-out: a connection the client
+			// keeps cached is gone when it is used again
+			idle = m.Plan.IdleClose
+		}
+		conn.SetReadDeadline(time.Now().Add(idle))
 		line, err := br.ReadString('\n')
 		if err != nil {
+			if m.Plan.IdleClose > 0 {
+				if s := simrt.Cur(); s != nil {
+					s.Stat("fault_mx_idle_close")
+				}
+			}
 			return
 		}
 		line = strings.TrimRight(line, "\r\n")
